@@ -84,6 +84,20 @@ func verifyFunc(P *Prog, fn *ssa.Function, fc *FuncContract) (rep *FnReport) {
 			st.assume("(> " + t + " 0)")
 		}
 	}
+	// captured variables are distinct cells
+	{
+		var cells []string
+		for _, fv := range fn.FreeVars {
+			if pt, ok := fv.Type().Underlying().(*types.Pointer); ok {
+				if _, isStruct := pt.Elem().Underlying().(*types.Struct); !isStruct {
+					cells = append(cells, st.vals[fv])
+				}
+			}
+		}
+		if len(cells) > 1 {
+			st.assume("(distinct " + strings.Join(cells, " ") + ")")
+		}
+	}
 	st.entryHeap = map[string]Term{}
 	fx.assumeGlobals(st, fr)
 	// thread-local ghost counters are natural numbers (every contract that
@@ -300,6 +314,10 @@ func (fx *FnExec) frameAllowed(env *evalEnv, modifies []Expr, initHeap map[strin
 	for _, m := range modifies {
 		switch x := m.(type) {
 		case *EField:
+			if hv, ok := fx.wholeFieldTarget(x, func(n string) bool { _, is := pre.vars[n]; return is }, pre.pkg); ok {
+				add(hv.name, true, "")
+				continue
+			}
 			b := pre.eval(x.X)
 			pt, _ := derefType(b.typ)
 			add(heapNameForField(pt, x.Name), false, b.t)
